@@ -50,8 +50,9 @@ type tunnelCase struct {
 	Order string `json:"order"`
 	// HoldMs: how long the second side waits after it saw end-of-stream before it sends its phase 2
 	HoldMs int `json:"hold_ms,omitempty"`
-	// ReplyVariant: 0 = HTTP/1.1 200 with a field line, 1 = HTTP/1.0 200, 2 = HTTP/1.1 200 with a
-	// Content-Length (upstream proxy modes)
+	// ReplyVariant (upstream proxy modes): 0 = HTTP/1.1 200 with a field line, 1 = HTTP/1.0 200,
+	// 2 = HTTP/1.1 200 with Content-Length: 5, 3 = with Transfer-Encoding: chunked, 4 = with
+	// Content-Length: 300000, 5 = with Transfer-Encoding: chunked and Content-Length: 5
 	ReplyVariant int `json:"reply_variant,omitempty"`
 	// HeadVariant: 1 = the CONNECT request carries a Content-Length
 	HeadVariant int `json:"head_variant,omitempty"`
@@ -540,6 +541,12 @@ func (e *env) runTunnel(tc *tunnelCase, stall, limit time.Duration) *tunnelObs {
 				reply = []byte(connectReply0)
 			case 2:
 				reply = []byte(connectReplyCL)
+			case 3:
+				reply = []byte(connectReplyTE)
+			case 4:
+				reply = []byte(connectReplyCLBig)
+			case 5:
+				reply = []byte(connectReplyTECL)
 			}
 		}
 		obs.ReplyLen = fe.sentPre + len(reply)
